@@ -164,32 +164,35 @@ Lemma uvarint_dec_step : forall i b t,
   uvarint_dec i (b :: t) =
   if Nat.eqb i 10 then None
   else if b <? 128 then (if Nat.eqb i 9 && (1 <? b) then None else Some b)
-  else match uvarint_dec (S i) t with Some r => Some ((b - 128) + 128 * r) | None => None end.
+  else match uvarint_dec (S i) t with Some r => Some (b mod 128 + 128 * r) | None => None end.
 Proof. reflexivity. Qed.
 
-(* decoding what was encoded, whatever follows: i = index of the first byte, i + fuel = 10,
-   64 * u < 128^fuel says that u fits the 64 - 7i bits that are left *)
-Lemma uvarint_dec_enc : forall fuel i u tail,
-  (i + fuel = 10)%nat -> fuel <> O -> 64 * u < 128 ^ N.of_nat fuel ->
-  uvarint_dec i (uvarint_enc fuel u ++ tail) = Some u.
+(* decoding what was encoded, whatever follows: i = index of the first byte, i + (g+1) = 10,
+   u < 2 * 128^g says that u fits the 64 - 7i bits that are left *)
+Lemma uvarint_dec_enc : forall g i u tail,
+  (i + S g = 10)%nat -> u < 2 * 128 ^ N.of_nat g ->
+  uvarint_dec i (uvarint_enc (S g) u ++ tail) = Some u.
 Proof.
-  induction fuel as [|f IH]; intros i u tail Hi Hf Hu; [congruence|].
-  rewrite uvarint_enc_step. rewrite pow128_succ in Hu.
-  destruct (u <? 128) eqn:E.
-  - cbn [app]. rewrite uvarint_dec_step, E.
+  induction g as [|g IH]; intros i u tail Hi Hu.
+  - change (128 ^ N.of_nat 0) with 1 in Hu. rewrite uvarint_enc_step.
+    replace (u <? 128) with true by lia. cbn [app]. rewrite uvarint_dec_step.
     replace (Nat.eqb i 10) with false by (symmetry; apply Nat.eqb_neq; lia).
-    destruct (Nat.eqb i 9) eqn:E9; [|reflexivity].
-    apply Nat.eqb_eq in E9. assert (f = O) by lia. subst f. change (128 ^ N.of_nat 0) with 1 in Hu.
-    replace (1 <? u) with false by lia. reflexivity.
-  - cbn [app]. rewrite uvarint_dec_step.
-    replace (Nat.eqb i 10) with false by (symmetry; apply Nat.eqb_neq; lia).
-    assert (Hm : u mod 128 < 128) by (apply N.mod_upper_bound; lia).
-    replace (u mod 128 + 128 <? 128) with false by lia.
-    pose proof (N.div_mod u 128 ltac:(lia)) as DM.
-    assert (f <> O).
-    { intro Z. subst f. change (128 ^ N.of_nat 0) with 1 in Hu. lia. }
-    rewrite IH; [f_equal; lia | lia | assumption |].
-    pose proof (pow128_pos f). nia.
+    replace (u <? 128) with true by lia. replace (1 <? u) with false by lia.
+    rewrite andb_false_r. reflexivity.
+  - rewrite uvarint_enc_step. rewrite pow128_succ in Hu.
+    destruct (u <? 128) eqn:E.
+    + cbn [app]. rewrite uvarint_dec_step, E.
+      replace (Nat.eqb i 10) with false by (symmetry; apply Nat.eqb_neq; lia).
+      replace (Nat.eqb i 9) with false by (symmetry; apply Nat.eqb_neq; lia). reflexivity.
+    + cbn [app]. rewrite uvarint_dec_step.
+      replace (Nat.eqb i 10) with false by (symmetry; apply Nat.eqb_neq; lia).
+      assert (Hm : u mod 128 < 128) by (apply N.mod_upper_bound; lia).
+      replace (u mod 128 + 128 <? 128) with false by lia.
+      pose proof (N.div_mod u 128 ltac:(lia)) as DM.
+      assert (Hmm : (u mod 128 + 128) mod 128 = u mod 128).
+      { symmetry. apply N.mod_unique with (q := 1); lia. }
+      rewrite IH; [rewrite Hmm; f_equal; lia | lia |].
+      apply N.div_lt_upper_bound; lia.
 Qed.
 
 Lemma uvarint_dec_app : forall b i u t, uvarint_dec i b = Some u -> uvarint_dec i (b ++ t) = Some u.
@@ -202,22 +205,28 @@ Proof.
   rewrite (IH _ _ t R). exact H.
 Qed.
 
+Lemma uvarint_dec_10 : forall b, uvarint_dec 10 b = None.
+Proof. destruct b; reflexivity. Qed.
+
 (* an accepted value fits 64 bits *)
-Lemma uvarint_dec_bound : forall b i f u,
-  (i + f = 10)%nat -> uvarint_dec i b = Some u -> 64 * u < 128 ^ N.of_nat f.
+Lemma uvarint_dec_bound : forall b i g u,
+  (i + S g = 10)%nat -> uvarint_dec i b = Some u -> u < 2 * 128 ^ N.of_nat g.
 Proof.
-  induction b as [|x b IH]; intros i f u Hi H; [discriminate|].
+  induction b as [|x b IH]; intros i g u Hi H; [discriminate|].
   rewrite uvarint_dec_step in H.
-  destruct (Nat.eqb i 10) eqn:E10; [discriminate|]. apply Nat.eqb_neq in E10.
-  destruct f as [|f]; [lia|]. rewrite pow128_succ.
+  replace (Nat.eqb i 10) with false in H by (symmetry; apply Nat.eqb_neq; lia).
   destruct (x <? 128) eqn:Ex.
   - destruct (Nat.eqb i 9) eqn:E9.
-    + apply Nat.eqb_eq in E9. assert (f = O) by lia. subst f. change (128 ^ N.of_nat 0) with 1.
+    + apply Nat.eqb_eq in E9. assert (g = O) by lia. subst g. change (128 ^ N.of_nat 0) with 1.
       destruct (1 <? x) eqn:E1; cbn [andb] in H; [discriminate|]. inversion H; subst. lia.
     + apply Nat.eqb_neq in E9. cbn [andb] in H. inversion H; subst.
-      destruct f as [|f]; [lia|]. rewrite pow128_succ. pose proof (pow128_pos f). lia.
+      destruct g as [|g]; [lia|]. rewrite pow128_succ. pose proof (pow128_pos g). lia.
   - destruct (uvarint_dec (S i) b) as [r|] eqn:R; [|discriminate].
-    inversion H; subst. specialize (IH (S i) f r ltac:(lia) R). lia.
+    destruct g as [|g].
+    + assert (S i = 10%nat) by lia. rewrite H0, uvarint_dec_10 in R. discriminate.
+    + assert (Hu : u = x mod 128 + 128 * r) by congruence. subst u. clear H.
+      specialize (IH (S i) g r ltac:(lia) R). rewrite pow128_succ.
+      pose proof (N.mod_upper_bound x 128 ltac:(lia)). lia.
 Qed.
 
 (* the independent well-formedness predicate describes exactly what is accepted *)
@@ -281,15 +290,15 @@ Proof.
   rewrite app_length, repeat_length. lia.
 Qed.
 
-Lemma pow128_10 : 128 ^ N.of_nat 10 = 64 * 2 ^ 64.
+Lemma pow128_9 : 2 * 128 ^ N.of_nat 9 = 2 ^ 64.
 Proof. reflexivity. Qed.
 
 Lemma lat_parse_enc : forall z tail, int64b z = true ->
   lat_parse (uvarint_enc 10 (zigzag z) ++ tail) = Ok z.
 Proof.
   intros z tail H. unfold lat_parse.
-  rewrite uvarint_dec_enc; [rewrite unzigzag_zigzag; reflexivity|reflexivity|discriminate|].
-  rewrite pow128_10. pose proof (zigzag_range z H). lia.
+  rewrite uvarint_dec_enc; [rewrite unzigzag_zigzag; reflexivity|reflexivity|].
+  rewrite pow128_9. apply (zigzag_range z H).
 Qed.
 
 (* every time with int64 Unix seconds is written and read back exactly *)
@@ -306,7 +315,7 @@ Theorem lat_parse_range : forall b z, lat_parse b = Ok z -> int64b z = true.
 Proof.
   intros b z. unfold lat_parse. destruct (uvarint_dec 0 b) as [u|] eqn:D; [|discriminate].
   intro H. inversion H; subst. apply unzigzag_range.
-  pose proof (uvarint_dec_bound b 0 10 u eq_refl D) as B. rewrite pow128_10 in B. lia.
+  pose proof (uvarint_dec_bound b 0 9 u eq_refl D) as B. rewrite pow128_9 in B. exact B.
 Qed.
 
 Theorem lat_parse_print : forall b z, lat_parse b = Ok z ->
@@ -373,7 +382,8 @@ Proof.
   unfold lat_print_prefix, lat_print, lat_print_buf in *.
   set (e := uvarint_enc 10 (zigzag z)) in *.
   destruct (Nat.leb (length e) 8) eqn:L; [|discriminate]. apply Nat.leb_le in L.
-  inversion H; subst b8. split; [apply lat_parse_enc; exact I|].
+  assert (Hb : b8 = e ++ repeat 0%N (8 - length e)) by congruence. subst b8. clear H.
+  split; [apply lat_parse_enc; exact I|].
   replace (Nat.leb (length e) 10) with true by (symmetry; apply Nat.leb_le; lia).
   rewrite <- app_assoc. f_equal. f_equal.
   change [0%N; 0%N] with (repeat 0%N 2). rewrite <- repeat_app. f_equal. lia.
